@@ -71,6 +71,9 @@ def make_param(ex, st, name, shape):
         return STy(z3.Const('in_' + name, ex.W.TT))
     if shape == 'none':
         return None
+    if shape == 'opaque':
+        from .symex import Opaque
+        return Opaque('in_' + name)
     raise ValueError('unknown shape %r' % (shape,))
 
 
